@@ -611,6 +611,9 @@ def _dohist(data, dmin, s, binsize, hist, revind=None):
     offset = nbin + 1
     i = 0
     binnum_old = -1
+    # one past the last counted datum; data beyond the last bin are not
+    # counted and must not end up in the last bin's slice
+    last = offset
 
     while i < s.size:
         data_index = s[i]
@@ -630,6 +633,7 @@ def _dohist(data, dmin, s, binsize, hist, revind=None):
 
             hist[binnum] += 1
             binnum_old = binnum
+            last = offset + 1
 
         i += 1
         offset += 1
@@ -638,7 +642,7 @@ def _dohist(data, dmin, s, binsize, hist, revind=None):
         # Fill in the last ones
         tbin = binnum_old + 1
         while tbin <= nbin:
-            revind[tbin] = revind.size
+            revind[tbin] = last
             tbin += 1
 
 
